@@ -37,7 +37,7 @@ ASSUMPTIONS = [
     "cols[...] on a table without index) and is counted, not raised",
 ]
 REQUIRED_CLASSES = ["op:rows", "op:cols", "op:cols-expr", "op:select-cols", "op:select-rows", "op:cols-all", "op:ctor-like", "op:add", "op:concatenate", "op:mul", "op:copy", "op:transpose",
-                    "op:head", "op:tail", "op:reverse", "op:assign-existing", "op:assign-new", "op:expr", "depth>=2",
+                    "op:head", "op:tail", "op:reverse", "op:assign-existing", "op:assign-new", "op:expr", "expr:asked-again-after-every-step", "depth>=2",
                     "source:empty", "ctor:2d-column", "ctor:scalars", "ctor:index=key"]
 COLS = ["a", "b", "c1", "q"]
 EXPRS = ["a+2*b", "a*b-1", "sqrt(abs(a))", "b/2", "a**2+b", "-a", "maximum(a,b)"]
@@ -483,6 +483,27 @@ def exec_script(ctx, case):
             if f:
                 f.sig += ":pool-member-after:" + op
                 return finish(f)
+            # column expressions are a function of the table's CURRENT columns: asked again after every step on every
+            # table (tables derived from one another may share arrays, so a column can change through another table;
+            # whatever t['a'] and t['b'] show now is what t['a+2*b'] must be computed from)
+            tt = p["t"]
+            if "a" in tt._col_names and "b" in tt._col_names and len(tt) > 0:
+                try:
+                    a = np.asarray(tt["a"])
+                    b = np.asarray(tt["b"])
+                    if a.dtype.kind not in "fiu" or b.dtype.kind not in "fiu" or a.shape != b.shape:
+                        continue
+                    with np.errstate(all="ignore"):
+                        for e, want in (("a+2*b", a + 2 * b), ("a*b-1", a * b - 1)):
+                            got = tt[e]
+                            if not arrays_same(got, want):
+                                return finish(Failure("C14:column-expression-differs:asked-again",
+                                                      dict(where, table=f"T{pi} ({p['origin']})", expression=e,
+                                                           got=repr(got)[:200], expected=repr(want)[:200])))
+                    classes.add("expr:asked-again-after-every-step")
+                except Exception as e:
+                    return finish(Failure(f"C14:column-expression-raises:{type(e).__name__}",
+                                          dict(where, table=f"T{pi} ({p['origin']})", raised=repr(e)[:200])))
     return finish(None)
 
 
